@@ -501,7 +501,12 @@ fn stream_thread(mut rx: RxH, mode: StreamMode, sh: &Shared, tid: usize, cfg: &F
             }
         }
     }
-    rx.drop_rx();
+    // leave through the explicit unsubscribe() as often as through Drop
+    if (tid + got as usize) % 2 == 0 {
+        rx.unsubscribe();
+    } else {
+        rx.drop_rx();
+    }
     sh.receivers_alive.fetch_sub(1, SeqCst);
     sh.state[tid].store(DONE, SeqCst);
 }
@@ -903,6 +908,10 @@ pub fn run_many(seed: u64, runs: u64, budget_ms: u64, small: bool, shard: &mut S
         }
         if i % 8 == 7 {
             let (sig, nontrivial) = direct_recv_scenario(&mut rng, shard);
+            if shard.stats.contains_key("direct_recv_threads_abandoned") {
+                // a thread of this process is stuck inside the queue: stop here, the result is written
+                break;
+            }
             shard.evaluations += 1;
             shard.distinct.insert(sig);
             if nontrivial {
@@ -1000,6 +1009,33 @@ pub fn direct_recv_scenario(rng: &mut Rng, shard: &mut Shard) -> (u64, bool) {
     }
     let stuck = done.load(SeqCst) == 0;
     tx.drop_tx(false);
+    if stuck {
+        // with every sender gone the call must return at the latest now
+        let t1 = Instant::now();
+        while done.load(SeqCst) == 0 && t1.elapsed() < Duration::from_secs(3) {
+            std::thread::yield_now();
+        }
+    }
+    if done.load(SeqCst) == 0 {
+        // cannot join: report and let the caller end this shard
+        violation(
+            "C15,C08",
+            "direct-recv",
+            format!("direct-recv:never-returned:{}", kind_name),
+            format!(
+                "{}::recv() returned neither when the value it waited for was sent nor when the last sender was dropped (spins {:?})",
+                kind_name, spins
+            ),
+        );
+        hooks::thread_end();
+        let vs = payload::take_violations();
+        let replay = J::obj()
+            .set("engine", J::s("fut"))
+            .set("scenario", J::s(format!("direct-recv {} cap={} uni={} k={} spins={:?}", fl.name(), cap, uni, k, spins)));
+        shard.add_violations(vs, &replay);
+        shard.stat("direct_recv_threads_abandoned", 1);
+        return (0, false);
+    }
     let (outs, log) = j.join().unwrap_or((Vec::new(), Vec::new()));
     let h = hist::merge(vec![log, hist::take()]);
     hooks::thread_end();
